@@ -211,9 +211,10 @@ def run(prop: str, tier: str, seed: int) -> int:
         try:
             cases.append(coords_case(f"pts-{k}", ewt, pts, sc))
             rep.family("coordinates", 1, 1)
+            rep.nontrivial += 1
         except ValueError:
             pass      # all points coincide etc.: the instance constructor refuses zero rows
-        rep.nontrivial += 3
+        rep.nontrivial += 2      # the explicit-format case and the write/read case (the coordinate case is counted below)
     # ---- shipped optimal tours
     from moptipyapps.tsp.known_optima import list_resource_tours, opt_tour_from_resource
     I = ts.mods()["Instance"]
